@@ -75,6 +75,9 @@ def _extra_body(e, kind):
         return BT_CUSTOM, struct.pack(e + "I", 32473) + _pad(b"custom-data")
     if kind == "custom_nc":
         return BT_CUSTOM_NC, struct.pack(e + "I", 32473) + _pad(b"x")
+    if kind.startswith("custom_len"):
+        n = int(kind[len("custom_len"):])
+        return BT_CUSTOM, struct.pack(e + "I", 32473) + _pad(b"c" * n)
     if kind == "unknown":
         return 0x00000ABC, _pad(b"unknown block body")
     if kind == "spb":
@@ -84,16 +87,21 @@ def _extra_body(e, kind):
 
 
 def write_pcapng(items, endian="<", tsresol=None, tsoffset=None, shb_opts=None, idb_opts=None, epb_opts=None,
-                 snaplen=0, linktype=1):
+                 snaplen=0, linktype=1, tsoffset_first=False, pre_idb=()):
     """items: list of Item.  tsresol: None (default 10^-6) or the raw if_tsresol byte.
     Packet timestamps are exact Fractions; they must be representable in the unit."""
     e = endian
     out = _block(e, BT_SHB, struct.pack(e + "IHHq", 0x1A2B3C4D, 1, 0, -1) + _opts(e, shb_opts))
     io = list(idb_opts or [])
+    if tsoffset is not None and tsoffset_first:
+        io.append((14, struct.pack(e + "q", tsoffset)))
     if tsresol is not None:
         io.append((9, bytes([tsresol])))
-    if tsoffset is not None:
+    if tsoffset is not None and not tsoffset_first:
         io.append((14, struct.pack(e + "q", tsoffset)))
+    for kind in pre_idb:
+        bt, body = _extra_body(e, kind)
+        out += _block(e, bt, body)
     out += _block(e, BT_IDB, struct.pack(e + "HHI", linktype, 0, snaplen) + _opts(e, io))
     if tsresol is None:
         unit = Fraction(1, 10 ** 6)
